@@ -141,9 +141,9 @@ def fit_minuit_v2(fcn, bounds_dict={}, hesse=True, minos=False, **kwargs):
         print("MINOS Time", time.time() - now)
     ndf = len(var_names)
     fcn.vm.set_all(list(m.values))
-    ret = FitResult(
-        dict(zip(var_names, m.values)), fcn, m.fval, ndf=ndf, success=m.valid
-    )
+    # all parameters (also the fixed ones), as fit_scipy does
+    params = fcn.get_params()
+    ret = FitResult(params, fcn, m.fval, ndf=ndf, success=m.valid)
     # print(m.errors)
     ret.set_error(dict(zip(var_names, m.errors)))
     return ret
